@@ -520,3 +520,20 @@ mod tests {
         assert!(batch.schema().field_with_name("host").is_ok());
     }
 }
+
+/// Verification hooks: public entry points to the private remote-write
+/// parse / convert routines (compiled only with the `verif_hooks` feature).
+#[cfg(feature = "verif_hooks")]
+pub mod verif {
+    /// `parse_write_request` as used by `handle_remote_write`.
+    pub fn parse_write_request(data: &[u8]) -> crate::Result<super::WriteRequest> {
+        super::parse_write_request(data)
+    }
+
+    /// `convert_prom_to_arrow` as used by `handle_remote_write`.
+    pub fn convert_prom_to_arrow(
+        req: &super::WriteRequest,
+    ) -> crate::Result<arrow_array::RecordBatch> {
+        super::convert_prom_to_arrow(req)
+    }
+}
